@@ -42,8 +42,9 @@ def gen(rng, tier, idx):
         return {'op': 'sweep', 'block': idx * step, 'use_data': idx % 2 == 0, 'kcfg': {}}
     op = OPS[idx % len(OPS)]
     big = rng.random() < 0.2
-    m = {'seed': rng.randrange(2 ** 31), 'n_rows': rng.choice([1, 2, 3, 4, 6, 9, 19]) if not big else 25,
-         'n_cols': rng.choice([1, 2, 3, 4, 7, 12]) if not big else 14,
+    big_shape = rng.choice([(25, 14), (25, 14), (3, 240), (240, 3), (12, 40), (2, 130)])
+    m = {'seed': rng.randrange(2 ** 31), 'n_rows': rng.choice([1, 2, 3, 4, 6, 9, 19]) if not big else big_shape[0],
+         'n_cols': rng.choice([1, 2, 3, 4, 7, 12]) if not big else big_shape[1],
          'density': rng.choice([0.0, 0.05, 0.2, 0.5, 1.0]) if not big else 0.7,
          'empty_rows': rng.random() < 0.4, 'empty_cols': rng.random() < 0.4,
          'dtype': rng.choice(['float64', 'float32', 'int32', 'uint16'])}
